@@ -217,6 +217,7 @@ func aolOps(acc aolAccounts, v aolVariant) []explore.Op {
 	for _, p := range pairs {
 		ops = append(ops, txOp(fmt.Sprintf("DeleteWriter(%s,%s,W)", p.o.Name, p.t), s(p.o), aoltypes.NewMsgDeleteWriter(p.t, W.Bech, p.o.Bech)))
 	}
+	ops = append(ops, txOp("DeleteWriter(A,a,A)", s(A), aoltypes.NewMsgDeleteWriter("a", A.Bech, A.Bech))) // the owner removes itself from its own writer list
 	for _, p := range pairs {
 		ops = append(ops, txOp(fmt.Sprintf("AddRecord(%s,%s,by=W)", p.o.Name, p.t), s(W),
 			aoltypes.NewMsgAddRecordRequest(p.t, []byte("k"), []byte("v-"+p.o.Name+p.t), W.Bech, p.o.Bech, "")))
@@ -917,6 +918,26 @@ func pageMatrix(s *explore.State, what, id string, want []string, call func(*que
 					fail("keywalk", "key walk limit=%d reverse=%v count_total=%v yields %v want %v", lim, reverse, ct, all, exp)
 				}
 				// offset based
+				if lim == limits[0] { // once per (reverse, count_total): offset-based requests that leave the limit unset (= default page of 100)
+					for _, off := range offsets {
+						got, _, err := call(&query.PageRequest{Offset: uint64(off), Reverse: reverse, CountTotal: ct})
+						if err != nil {
+							fail("offset-err", "offset=%d no limit reverse=%v: %v", off, reverse, err)
+							continue
+						}
+						lo := off
+						if lo > n {
+							lo = n
+						}
+						hi := lo + 100
+						if hi > n {
+							hi = n
+						}
+						if !eq(got, exp[lo:hi]) {
+							fail("offset-nolimit", "offset=%d without limit reverse=%v count_total=%v yields %v want %v", off, reverse, ct, got, exp[lo:hi])
+						}
+					}
+				}
 				for _, off := range offsets {
 					got, pr, err := call(&query.PageRequest{Offset: uint64(off), Limit: lim, Reverse: reverse, CountTotal: ct})
 					if err != nil {
